@@ -140,7 +140,11 @@ func (r c02RLResult) String() string {
 }
 
 func c02RLCall(cl mock.DepositServiceClient, b *c02RLBehaviour) c02RLResult {
-	ctx, cancel := context.WithTimeout(context.Background(), 40*time.Second)
+	limit := 40 * time.Second
+	if b.c.S == 2 {
+		limit = 6 * time.Second // 20 x the server timeout
+	}
+	ctx, cancel := context.WithTimeout(context.Background(), limit)
 	defer cancel()
 	t0 := time.Now()
 	resp, err := cl.Deposit(ctx, &mock.DepositRequest{Amount: float32(b.id)})
@@ -246,8 +250,8 @@ func c02RLRun(c c02RLCase) (v kit.Verdict) {
 	}()
 	stalled := func(r c02RLResult) bool {
 		// "returns at once" no longer describes a run in which the machine stood still for
-		// half the server timeout; a client that waited 20 s may have hit its own deadline (40 s)
-		return (c.S == 0 && r.took >= T/2) || r.took >= 20*time.Second
+		// half the server timeout; a client that waited 20 s (5 s on server 2) may have hit its own deadline (40 s / 6 s)
+		return (c.S == 0 && r.took >= T/2) || r.took >= 20*time.Second || (c.S == 2 && r.took >= 5*time.Second)
 	}
 	// two calls that must succeed: breaker padding, and proof that the server survived what came before
 	for i := 0; i < 2; i++ {
@@ -263,7 +267,7 @@ func c02RLRun(c c02RLCase) (v kit.Verdict) {
 	}
 	b := c02RLNew(c)
 	r := c02RLCall(cl, b)
-	if w := time.Duration(atomic.LoadInt64(&b.waited)); c.S == 2 && w >= 15*time.Second {
+	if w := time.Duration(atomic.LoadInt64(&b.waited)); c.S == 2 && w >= 4*time.Second {
 		// measured inside the handler, right after two calls that were answered promptly
 		return v.Failf("rpc loopback server %d (timeout %v), %+v: the handler's context was done only %v after the handler started: the server timeout did not end the call; got %v", c.S, T, c, w.Round(time.Millisecond), r)
 	}
